@@ -58,3 +58,28 @@ package proc
 //@   requires @listener-wired deref(l) != nil && deref(l).stats != nil && distinctstats(deref(l).stats) && (deref(l).conns == nil || has(deref(l).conns, deref(conn)))
 //@   requires @cleanup-runs-for-admitted-connections-only admitted[ifaceloc(deref(conn))]
 //@   modifies all, admitted
+
+// ---- C09: drain leaves established connections alone; stop clears the registry and waits for the serve loop ----
+
+//@ func (*listener).Drain$1
+//@   prop C09
+//@   requires deref(l) != nil && deref(l).drain != nil && !closed(deref(l).drain)
+//@   modifies closed(deref(l).drain)
+//@   ensures @drain-latch-closed closed(deref(l).drain)
+
+//@ func (*listener).Drain
+//@   prop C09
+//@   requires l != nil
+//@   nocall (net.Conn).Close
+//@   nocall removeConn
+//@   modifies closed(l.drain), heap("#closed")
+//@   ensures @established-connections-stay-registered l.conns == old(l.conns)
+
+//@ func (*listener).Stop
+//@   prop C09
+//@   requires l != nil
+//@   requires @registered-connections-present forall c net.Conn :: has(l.conns, c) ==> c != nil
+//@   loop 0 invariant forall c net.Conn :: has(conns, c) ==> c != nil
+//@   modifies all
+//@   ensures @waits-for-the-serve-loop waitedfor(l.done)
+//@   callpre Close @closes-the-registered-connections-after-clearing-the-registry l.conns == nil
